@@ -200,6 +200,13 @@ def _master_shapes(rnd, is_default, mark_zero=True):
                     ny += rnd.randrange(-25, 26)
                 cc.append((int(round(nx)), int(round(ny)), k))
             out.append(cc)
+        if rnd.random() < 0.5:
+            # one point pulled away on its own while its neighbours follow the affine move: the deltas of the others
+            # stay IUP-inferable, and the inference ratios depend on which outline they are computed against
+            c = rnd.choice(out)
+            j = rnd.randrange(len(c))
+            x, y, k = c[j]
+            c[j] = (x + rnd.choice([-1, 1]) * rnd.randrange(30, 81), y + rnd.choice([-1, 1]) * rnd.randrange(20, 61), k)
         shapes[g] = out
     comps = {}
     for g, cl in COMPOSITES.items():
